@@ -17,6 +17,10 @@
 #include <vector>
 #include <sstream>
 #include <fstream>
+#include <sys/wait.h>
+#include <sys/resource.h>
+#include <unistd.h>
+#include <csignal>
 
 #include "common/prng.hpp"
 
@@ -260,6 +264,60 @@ template<multi::dimensionality_type D> void q_elems(VS<D> const& s) {
 	}
 }
 
+// death tests (C20) --------------------------------------------------------------------------------------------
+// runs f() in a forked child; reports how the child ended: "abort assert-in-multi" (SIGABRT with an assertion message
+// naming a file under boost/multi), "abort other", "none" (returned normally), "sig<k>"
+template<class F> std::string run_child(F&& f) {
+	std::fflush(fprog); std::fflush(fans); std::fflush(stdout);
+	int fds[2]; if(pipe(fds) != 0) return "pipe-failed";
+	pid_t pid = fork();
+	if(pid == 0) {
+		struct rlimit rl{0, 0}; setrlimit(RLIMIT_CORE, &rl);
+		dup2(fds[1], 2); close(fds[0]); close(fds[1]);
+		f();
+		_exit(0);
+	}
+	close(fds[1]);
+	std::string err; char buf[512]; ssize_t n;
+	while((n = read(fds[0], buf, sizeof buf)) > 0) err.append(buf, static_cast<std::size_t>(n));
+	close(fds[0]);
+	int st = 0; waitpid(pid, &st, 0);
+	if(WIFEXITED(st)) return WEXITSTATUS(st) == 0 ? "none" : "exit" + std::to_string(WEXITSTATUS(st));
+	if(WIFSIGNALED(st)) {
+		if(WTERMSIG(st) == SIGABRT) return (err.find("Assertion") != std::string::npos && err.find("boost/multi") != std::string::npos) ? "abort assert-in-multi" : "abort other";
+		return "sig" + std::to_string(WTERMSIG(st));
+	}
+	return "unknown";
+}
+
+static volatile T g_sink = 0;
+
+template<multi::dimensionality_type D> void q_death_index(VS<D> const& s, long i, int variant) {
+	if constexpr(D == 0) { std::fprintf(fans, "death none\n"); }
+	else {
+		auto r = run_child([&] {
+			auto&& v = mk(s); auto const& cv = v;
+			if(variant == 0) { if constexpr(D == 1) { auto&& e = v[i]; g_sink = e; } else { auto&& sub = v[i]; g_sink = static_cast<T>(sub.num_elements()); } }
+			else if(variant == 1) { if constexpr(D == 1) { auto&& e = cv[i]; g_sink = e; } else { auto&& sub = cv[i]; g_sink = static_cast<T>(sub.num_elements()); } }
+			else { if constexpr(D == 1) { auto&& e = mk(s)[i]; g_sink = e; } else { auto&& sub = cv(i); g_sink = static_cast<T>(sub.num_elements()); } }
+		});
+		std::fprintf(fans, "death %s\n", r.c_str());
+	}
+}
+
+template<multi::dimensionality_type D> void q_death_assign(VS<D> const& a, AnyView const& bv, int variant) {
+	if constexpr(D == 0) { std::fprintf(fans, "death none\n"); }
+	else {
+		if(!std::holds_alternative<VS<D>>(bv)) { std::fprintf(fans, "death bad-rank\n"); return; }
+		auto const& b = std::get<VS<D>>(bv);
+		auto r = run_child([&] {
+			auto&& va = mk(a); auto&& vb = mk(b);
+			if(variant == 0) { va = vb; } else if(variant == 1) { mk(a) = vb; } else { va = std::as_const(vb); }
+		});
+		std::fprintf(fans, "death %s\n", r.c_str());
+	}
+}
+
 // operations --------------------------------------------------------------------------------------------------
 struct CallArg { int kind; long a, b; };  // 0 = index, 1 = range, 2 = ALL
 
@@ -391,7 +449,7 @@ template<multi::dimensionality_type D> bool gen_op(VS<D> const& s, Rng& rng, boo
 }
 
 // which query families a run emits: C01 = shape/addrs/paths/bcast, C02 = iter/elems (+ shape), zero|rebased = all
-static bool g_q_shape = true, g_q_iter = true;
+static bool g_q_shape = true, g_q_iter = true, g_death = false;
 
 static void emit_queries(AnyView const& av, int reg, Rng& rng, bool all) {
 	auto q = [&](char const* what) { std::fprintf(fprog, "q %s %d\n", what, reg); };
@@ -460,6 +518,43 @@ static void run_generated(std::uint64_t seed, long nprog, bool rebased) {
 			if(rng.coin(25)) emit_queries(cur, 1, rng, false);
 		}
 		emit_queries(cur, src, rng, rng.coin(50));
+		if(g_death) {
+			auto cex = std::visit([](auto const& s) { return exts_of(mk(s)); }, cur);
+			auto cst = std::visit([](auto const& s) { return strides_of(mk(s)); }, cur);
+			if(!cex.empty() && cst[0] != 0) {
+				// indexing outside the extension must be stopped by an assertion
+				long k = rng.range(0, 2);
+				long i = rng.coin(50) ? cex[0].first - 1 - k : cex[0].last + k;
+				int iv = static_cast<int>(rng.range(0, 2));
+				std::fprintf(fprog, "q death_index %d %ld %d\n", src, i, iv);
+				std::visit([&](auto const& s) { q_death_index(s, i, iv); }, cur);
+				// inside the extension: silent
+				if(cex[0].size() > 0) {
+					long j = rng.range(cex[0].first, cex[0].last - 1);
+					int jv = static_cast<int>(rng.range(0, 2));
+					std::fprintf(fprog, "q death_index %d %ld %d\n", src, j, jv);
+					std::visit([&](auto const& s) { q_death_index(s, j, jv); }, cur);
+				}
+			}
+			if(!cex.empty() && cex.size() <= 4) {
+				// a second array with extents derived from the current view's: equal, one size changed, or two sizes swapped
+				std::vector<Ex> ex2 = cex; long ne2 = 1;
+				int kind = rng.pick({25, 45, 30});
+				if(kind == 1) { auto d = static_cast<std::size_t>(rng.range(0, static_cast<long>(ex2.size()) - 1)); long sz = ex2[d].size() + (rng.coin(50) && ex2[d].size() > 0 ? -1 : 1); ex2[d].last = ex2[d].first + sz; }
+				if(kind == 2 && ex2.size() >= 2) { auto d = static_cast<std::size_t>(rng.range(0, static_cast<long>(ex2.size()) - 2)); long s0 = ex2[d].size(), s1 = ex2[d + 1].size(); ex2[d].last = ex2[d].first + s1; ex2[d + 1].last = ex2[d + 1].first + s0; }
+				for(auto const& e : ex2) ne2 *= e.size();
+				if(ne2 <= 400) {
+					long base2 = 1024;
+					std::string rl = "root 2 " + std::to_string(base2) + " " + std::to_string(ex2.size());
+					for(auto const& e : ex2) rl += " " + std::to_string(e.first) + " " + std::to_string(e.last);
+					std::fprintf(fprog, "%s\n", rl.c_str());
+					AnyView second = make_root_any(ex2, g_mem + base2);
+					int variant = static_cast<int>(rng.range(0, 2));
+					std::fprintf(fprog, "q death_assign %d 2 %d\n", src, variant);
+					std::visit([&](auto const& s) { q_death_assign(s, second, variant); }, cur);
+				}
+			}
+		}
 		// broadcast: the broadcasted view designates the source at every index of the new leading dimension
 		if(g_q_shape && rng.coin(20)) {
 			long i = rng.range(-5, 5);
@@ -508,6 +603,8 @@ static void run_replay(char const* path) {
 			else if(w[1] == "paths") std::visit([](auto const& s) { q_paths(s); }, av);
 			else if(w[1] == "iter") std::visit([](auto const& s) { q_iter(s); }, av);
 			else if(w[1] == "elems") std::visit([](auto const& s) { q_elems(s); }, av);
+			else if(w[1] == "death_index") { long i = std::stol(w[3]); int iv = w.size() > 4 ? std::stoi(w[4]) : 0; std::visit([&](auto const& s) { q_death_index(s, i, iv); }, av); }
+			else if(w[1] == "death_assign") { int variant = std::stoi(w[4]); auto const& bv = regs[static_cast<std::size_t>(std::stoi(w[3]))]; std::visit([&](auto const& s) { q_death_assign(s, bv, variant); }, av); }
 			else if(w[1] == "bcast") {
 				long i = std::stol(w[4]);
 				bool same = std::visit([&](auto const& s) {
@@ -528,6 +625,7 @@ int main(int argc, char** argv) {
 	std::string mode = argv[3];
 	bool rebased = mode == "rebased" || mode == "rebased-c02";
 	if(mode == "c01") { g_q_iter = false; }
+	if(mode == "death") { g_death = true; g_q_iter = false; }
 	if(mode == "c02" || mode == "rebased-c02") { g_q_shape = false; }
 	fprog = std::fopen(argv[4], "w"); fans = std::fopen(argv[5], "w");
 	if(!fprog || !fans) { std::perror("fopen"); return 2; }
